@@ -335,6 +335,12 @@ def configurations(tier, seed):
                              OpSet={"mix", "polyprod", "polydiff", "rprod", "clamp", "conj", "sigmoid",
                                     "softplus", "ssigmoid"},
                              LogLeaves=True, **em(100, 10)),
+        # the two parameter-graph optimisation patterns (log o softmax, reduce-sum o outer product),
+        # every axis, as weights of circuits compiled with optimize=True (step iv of the replay)
+        "e1_opt_logsoftmax": dict(Shapes={(2, 3), (3, 2)}, MaxLeaves=1, MaxNodes=3, LeafKinds={"tensor"},
+                                  OpSet={"softmax", "log"}, LogLeaves=True, EmitMod=1, EmitRes=0),
+        "e2_opt_sum_outer": dict(Shapes={(2, 2, 3), (2, 3, 2)}, MaxLeaves=2, MaxNodes=4, LeafKinds={"tensor"},
+                                 OpSet={"outerprod", "rsum"}, LogLeaves=False, **em(4, 1)),
         "c_gaussian": dict(Shapes={(2,), (3,)}, MaxLeaves=4, MaxNodes=5, LeafKinds={"tensor"},
                            OpSet={"gmean", "gvar"}, LogLeaves=False, PosLeaves=True, **em(2, 1)),
         "d_poly": dict(Shapes={(2, 3), (1, 2), (2, 1)}, MaxLeaves=2, MaxNodes=4,
